@@ -67,6 +67,8 @@ pub struct FsFaults {
     pub enospc_permille: u64,
     /// Opt-in: pieces smaller than a sector survive independently (finer than real disks).
     pub subsector: bool,
+    /// Crash images taken (and checked by the harness) at every sync inside a commit window.
+    pub explore: u32,
 }
 
 struct Inner {
@@ -74,7 +76,8 @@ struct Inner {
     files: Vec<FileState>,
     fds: BTreeMap<RawFd, Fd>,
     next_fd: RawFd,
-    crash_in: BTreeMap<usize, (u32, u64)>,
+    /// Armed crashes: (mutating calls left, survival choices, countdown starts at the next fallocate).
+    crash_in: BTreeMap<usize, (u32, u64, bool)>,
     crashed: BTreeSet<usize>,
     rng: Rng,
     faults: FsFaults,
@@ -85,6 +88,11 @@ struct Inner {
     in_commit_window: BTreeSet<usize>,
     /// Replicas whose root slots were hit by a sub-sector tear (sticky for the run).
     subsector_root_tear: BTreeSet<usize>,
+    /// Crash-state exploration: images to take at every sync inside a commit window.
+    explore: u32,
+    explore_budget: u32,
+    explore_rng: Rng,
+    snapshots: Vec<Snapshot>,
 }
 
 pub struct SimFs {
@@ -93,6 +101,7 @@ pub struct SimFs {
 
 impl SimFs {
     pub fn new(seed: u64, faults: FsFaults) -> Self {
+        let explore = faults.explore;
         Self {
             inner: RefCell::new(Inner {
                 dirs: BTreeMap::new(),
@@ -108,12 +117,22 @@ impl SimFs {
                 mutating_calls: BTreeMap::new(),
                 in_commit_window: BTreeSet::new(),
                 subsector_root_tear: BTreeSet::new(),
+                explore,
+                explore_budget: 600,
+                explore_rng: Rng::derive(seed, "explore"),
+                snapshots: Vec::new(),
             }),
         }
     }
 
     pub fn arm_crash(&self, rep: usize, after_calls: u32, choices: u64) {
-        self.inner.borrow_mut().crash_in.insert(rep, (after_calls, choices));
+        self.inner.borrow_mut().crash_in.insert(rep, (after_calls, choices, false));
+    }
+
+    /// The countdown starts only when the replica next grows its file (`fallocate`): places the
+    /// crash in the window right after a preallocation boundary.
+    pub fn arm_crash_after_fallocate(&self, rep: usize, after_calls: u32, choices: u64) {
+        self.inner.borrow_mut().crash_in.insert(rep, (after_calls, choices, true));
     }
 
     pub fn disarm(&self, rep: usize) {
@@ -122,6 +141,24 @@ impl SimFs {
 
     pub fn take_hard_error(&self, rep: usize) -> bool {
         self.inner.borrow_mut().hard_error.remove(&rep)
+    }
+
+    pub fn take_snapshots(&self, rep: usize) -> Vec<Snapshot> {
+        let mut i = self.inner.borrow_mut();
+        let (mine, rest): (Vec<Snapshot>, Vec<Snapshot>) = std::mem::take(&mut i.snapshots).into_iter().partition(|s| s.rep == rep);
+        i.snapshots = rest;
+        mine
+    }
+
+    /// Creates the directory of scratch replica `rep` holding exactly these files (durable).
+    pub fn install_image(&self, rep: usize, files: &[(Vec<u8>, Vec<u8>, u64)]) {
+        let mut i = self.inner.borrow_mut();
+        let mut dir = BTreeMap::new();
+        for (name, bytes, len) in files {
+            i.files.push(FileState { data: bytes.clone(), len: *len, durable: bytes.clone(), durable_len: *len, pending: Vec::new(), lock: None });
+            dir.insert(name.clone(), i.files.len() - 1);
+        }
+        i.dirs.insert(rep, dir);
     }
 
     pub fn had_subsector_root_tear(&self, rep: usize) -> bool {
@@ -185,6 +222,134 @@ fn tr(msg: impl FnOnce() -> String) {
     }
 }
 
+/// What a file looks like after power loss, according to the crash rule.
+struct CrashImage {
+    bytes: Vec<u8>,
+    len: u64,
+    /// Some un-synced sectors survived and some did not.
+    partial: bool,
+    /// A root-slot sector was left in a state the page cache never held (sub-sector mode only).
+    root_tear: bool,
+}
+
+/// Crash rule for one file.
+///
+/// Default rule (sector-atomic, order-respecting): the page cache applies writes in program
+/// order and the disk persists whole 512-byte sectors, in any order across sectors. So for
+/// every sector touched by un-synced writes the surviving content is the durable content
+/// with a *prefix* of the pending writes to that sector applied: none (lost), all (kept), or
+/// the first j (background write-back happened between two writes). A multi-sector write is
+/// torn at sector boundaries. One crash in three is the reordering adversary: the sectors
+/// written last survive and the ones written first are lost (what a missing barrier allows).
+/// With `subsector` (opt-in family) every (write, sector) piece survives independently and
+/// may also be cut at a byte offset; that is finer than what disks do and is reported separately.
+fn crash_image(fs: &FileState, rng: &mut Rng, subsector: bool, f: usize) -> CrashImage {
+    let mut base = fs.durable.clone();
+    let mut len = fs.durable_len;
+    if fs.len > fs.durable_len && rng.chance(1, 2) {
+        len = fs.len;
+    }
+    let mut kept = 0;
+    let mut lost = 0;
+    let mut root_tear = false;
+    let put = |base: &mut Vec<u8>, abs: usize, bytes: &[u8]| {
+        if (abs as u64) >= len {
+            return false;
+        }
+        let take = bytes.len().min((len as usize).saturating_sub(abs));
+        if take == 0 {
+            return false;
+        }
+        if base.len() < abs + take {
+            base.resize(abs + take, 0);
+        }
+        base[abs..abs + take].copy_from_slice(&bytes[..take]);
+        true
+    };
+    if subsector {
+        for (off, data) in &fs.pending {
+            let mut pos = 0usize;
+            while pos < data.len() {
+                let abs = *off as usize + pos;
+                let sector_end = (abs / SECTOR + 1) * SECTOR;
+                let n = (sector_end - abs).min(data.len() - pos);
+                let take = match rng.below(10) {
+                    0..=3 => n,
+                    4..=7 => 0,
+                    _ => rng.usize_below(n + 1),
+                };
+                tr(|| format!("crash(subsector) f{f}: piece abs={abs} n={n} take={take}"));
+                if take > 0 && put(&mut base, abs, &data[pos..pos + take]) {
+                    kept += 1;
+                } else {
+                    lost += 1;
+                }
+                if (take != n || abs / SECTOR * SECTOR != abs || n != SECTOR) && (ROOT_AREA.0..ROOT_AREA.1).contains(&(abs as u64)) {
+                    // Anything but whole aligned sectors can leave a sector in a state the
+                    // page cache never held.
+                    root_tear = true;
+                }
+                pos += n;
+            }
+        }
+    } else {
+        // sector -> pieces (in program order) of pending writes falling into it
+        let mut by_sector: BTreeMap<usize, Vec<(usize, &[u8])>> = BTreeMap::new();
+        // sector -> index (in program order) of the last pending write touching it
+        let mut last_write: BTreeMap<usize, usize> = BTreeMap::new();
+        let n_writes = fs.pending.len();
+        for (wi, (off, data)) in fs.pending.iter().enumerate() {
+            let mut pos = 0usize;
+            while pos < data.len() {
+                let abs = *off as usize + pos;
+                let sector = abs / SECTOR;
+                let n = ((sector + 1) * SECTOR - abs).min(data.len() - pos);
+                by_sector.entry(sector).or_default().push((abs, &data[pos..pos + n]));
+                last_write.insert(sector, wi);
+                pos += n;
+            }
+        }
+        let newest_first: Option<usize> = if n_writes > 1 && rng.chance(1, 3) { Some(rng.usize_below(n_writes + 1)) } else { None };
+        for (sector, pieces) in by_sector {
+            let k = pieces.len();
+            let j = match newest_first {
+                Some(cut) => {
+                    if last_write[&sector] >= cut { k } else { 0 }
+                }
+                None => match rng.below(10) {
+                    0..=3 => k,
+                    4..=7 => 0,
+                    _ => rng.usize_below(k + 1),
+                },
+            };
+            tr(|| format!("crash f{f}: sector {sector} keeps {j} of {k} pending writes"));
+            let mut any = false;
+            for (abs, bytes) in pieces.iter().take(j) {
+                any |= put(&mut base, *abs, bytes);
+            }
+            if any {
+                kept += 1;
+            }
+            if j < k {
+                lost += 1;
+            }
+        }
+    }
+    if base.len() as u64 > len {
+        base.truncate(len as usize);
+    }
+    CrashImage { bytes: base, len, partial: kept > 0 && lost > 0, root_tear }
+}
+
+/// A crash image of one replica's directory taken at a sync point (crash-state exploration).
+pub struct Snapshot {
+    pub rep: usize,
+    /// (file name, content, logical length)
+    pub files: Vec<(Vec<u8>, Vec<u8>, u64)>,
+    pub partial: bool,
+    pub root_tear: bool,
+}
+
 fn bump(i: &mut Inner, k: &'static str) {
     *i.counters.entry(k).or_insert(0) += 1;
 }
@@ -215,100 +380,15 @@ impl Inner {
         let mut partial = false;
         let mut root_tear = false;
         for f in files {
+            let img = crash_image(&self.files[f], &mut rng, subsector, f);
+            partial |= img.partial;
+            root_tear |= img.root_tear;
             let fs = &mut self.files[f];
-            let mut base = fs.durable.clone();
-            let mut len = fs.durable_len;
-            if fs.len > fs.durable_len && rng.chance(1, 2) {
-                len = fs.len;
-            }
-            let mut kept = 0;
-            let mut lost = 0;
-            let pending = std::mem::take(&mut fs.pending);
-            let mut put = |base: &mut Vec<u8>, abs: usize, bytes: &[u8]| {
-                if (abs as u64) >= len {
-                    return false;
-                }
-                let take = bytes.len().min((len as usize).saturating_sub(abs));
-                if take == 0 {
-                    return false;
-                }
-                if base.len() < abs + take {
-                    base.resize(abs + take, 0);
-                }
-                base[abs..abs + take].copy_from_slice(&bytes[..take]);
-                true
-            };
-            if subsector {
-                for (off, data) in pending {
-                    let mut pos = 0usize;
-                    while pos < data.len() {
-                        let abs = off as usize + pos;
-                        let sector_end = (abs / SECTOR + 1) * SECTOR;
-                        let n = (sector_end - abs).min(data.len() - pos);
-                        let take = match rng.below(10) {
-                            0..=3 => n,
-                            4..=7 => 0,
-                            _ => rng.usize_below(n + 1),
-                        };
-                        tr(|| format!("crash(subsector) f{f}: piece abs={abs} n={n} take={take}"));
-                        if take > 0 && put(&mut base, abs, &data[pos..pos + take]) {
-                            kept += 1;
-                        } else {
-                            lost += 1;
-                        }
-                        if take != n || abs / SECTOR * SECTOR != abs || n != SECTOR {
-                            // Anything but whole aligned sectors can leave a sector in a state the
-                            // page cache never held.
-                            if (ROOT_AREA.0..ROOT_AREA.1).contains(&(abs as u64)) {
-                                root_tear = true;
-                            }
-                        }
-                        pos += n;
-                    }
-                }
-            } else {
-                // sector -> pieces (in program order) of pending writes falling into it
-                let mut by_sector: BTreeMap<usize, Vec<(usize, Vec<u8>)>> = BTreeMap::new();
-                for (off, data) in pending {
-                    let mut pos = 0usize;
-                    while pos < data.len() {
-                        let abs = off as usize + pos;
-                        let sector = abs / SECTOR;
-                        let n = ((sector + 1) * SECTOR - abs).min(data.len() - pos);
-                        by_sector.entry(sector).or_default().push((abs, data[pos..pos + n].to_vec()));
-                        pos += n;
-                    }
-                }
-                for (sector, pieces) in by_sector {
-                    let k = pieces.len();
-                    let j = match rng.below(10) {
-                        0..=3 => k,
-                        4..=7 => 0,
-                        _ => rng.usize_below(k + 1),
-                    };
-                    tr(|| format!("crash f{f}: sector {sector} keeps {j} of {k} pending writes"));
-                    let mut any = false;
-                    for (abs, bytes) in pieces.iter().take(j) {
-                        any |= put(&mut base, *abs, bytes);
-                    }
-                    if any {
-                        kept += 1;
-                    }
-                    if j < k {
-                        lost += 1;
-                    }
-                }
-            }
-            if kept > 0 && lost > 0 {
-                partial = true;
-            }
-            if base.len() as u64 > len {
-                base.truncate(len as usize);
-            }
-            fs.data = base.clone();
-            fs.durable = base;
-            fs.len = len;
-            fs.durable_len = len;
+            fs.pending.clear();
+            fs.data = img.bytes.clone();
+            fs.durable = img.bytes;
+            fs.len = img.len;
+            fs.durable_len = img.len;
             fs.lock = None;
         }
         if root_tear {
@@ -344,7 +424,10 @@ impl Inner {
     /// Called at the start of every mutating call of `rep`. Returns true when the crash fires.
     fn tick(&mut self, rep: usize) -> Option<u64> {
         *self.mutating_calls.entry(rep).or_insert(0) += 1;
-        if let Some((n, choices)) = self.crash_in.get_mut(&rep) {
+        if let Some((n, choices, waiting)) = self.crash_in.get_mut(&rep) {
+            if *waiting {
+                return None;
+            }
             if *n == 0 {
                 return Some(*choices);
             }
@@ -449,6 +532,12 @@ impl SimSys for SimFs {
             i.crash(rep, choices);
             drop(i);
             panic!("{CRASH_PANIC} r{rep}");
+        }
+        if let Some((_, _, waiting)) = i.crash_in.get_mut(&rep) {
+            if *waiting {
+                *waiting = false;
+                bump(&mut i, "crash.armed_after_fallocate");
+            }
         }
         let permille = i.faults.enospc_permille;
         if permille > 0 && i.rng.below(1000) < permille {
@@ -581,6 +670,28 @@ impl SimFs {
             drop(i);
             panic!("{CRASH_PANIC} r{rep}");
         }
+        // Crash-state exploration: what would reopening find if power were lost right now,
+        // before this barrier takes effect? The images are checked by the harness after the call.
+        if i.explore > 0 && i.in_commit_window.contains(&rep) && !i.files[file].pending.is_empty() {
+            let subsector = i.faults.subsector;
+            for _ in 0..i.explore {
+                if i.explore_budget == 0 {
+                    break;
+                }
+                i.explore_budget -= 1;
+                let names: Vec<(Vec<u8>, usize)> = i.dirs.get(&rep).map(|d| d.iter().map(|(k, v)| (k.clone(), *v)).collect()).unwrap_or_default();
+                let mut rng = Rng::new(i.explore_rng.next_u64());
+                let mut snap = Snapshot { rep, files: Vec::new(), partial: false, root_tear: false };
+                for (name, f) in names {
+                    let img = crash_image(&i.files[f], &mut rng, subsector, f);
+                    snap.partial |= img.partial;
+                    snap.root_tear |= img.root_tear;
+                    snap.files.push((name, img.bytes, img.len));
+                }
+                i.snapshots.push(snap);
+                bump(&mut i, "explore.images");
+            }
+        }
         let eio = i.faults.eio_permille;
         if eio > 0 && i.rng.below(1000) < eio {
             // Linux semantics after a failed fsync: nothing is guaranteed about the un-synced
@@ -647,9 +758,99 @@ impl Sim {
         }
     }
 
+    /// Crash-state exploration (DESIGN 3.4): every image the simulated disk produced at a sync
+    /// point of the call that just returned is reopened with a fresh `FileManager` in a scratch
+    /// directory and must hold the last completed commit or a commit that was in progress.
+    fn check_crash_images(&mut self, r: usize) {
+        let Some(fs) = self.fs.clone() else { return };
+        let snaps = fs.take_snapshots(r);
+        if snaps.is_empty() || self.dead {
+            return;
+        }
+        let Some(gid) = self.gid else { return };
+        let (old_committed, had_graph) = with_rep!(&self.reps[r], rep => (rep.committed.clone(), rep.has_graph));
+        let mut candidates: Vec<BTreeSet<CmdId>> = Vec::new();
+        if had_graph {
+            candidates.push(old_committed);
+        }
+        candidates.extend(self.disk[r].attempted.iter().cloned());
+        let completed = self.disk[r].completed_any;
+        let scratch = 1000 + r;
+        let probe = self.probe_keys.clone();
+        for snap in snaps {
+            if !self.found.is_empty() {
+                break;
+            }
+            self.stats.bump("explore.images_checked");
+            if snap.partial {
+                self.stats.bump("explore.images_partial");
+            }
+            let sig_of = |normal: &str| if snap.root_tear || fs.had_subsector_root_tear(r) { "root-slot-subsector-tear".to_string() } else { normal.to_string() };
+            fs.install_image(scratch, &snap.files);
+            let verdict: Result<(), (String, String, String)> = (|| {
+                use aranya_runtime::{Storage as _, StorageProvider as _};
+                let mut p = dir_path(scratch).into_bytes();
+                p.push(0);
+                let fm = FileManager::new(aranya_libc::Path::new(&p)).map_err(|e| ("C15.image-unrecoverable".to_string(), sig_of("crash-image-unrecoverable"), format!("scratch directory does not open: {e}")))?;
+                let mut provider = LinearStorageProvider::new(fm);
+                let st = match provider.get_storage(gid) {
+                    Ok(st) => st,
+                    Err(e) => {
+                        return if completed { Err(("C15.image-unrecoverable".into(), sig_of("crash-image-unrecoverable"), format!("reopening fails ({e}) although a commit had completed"))) } else { Ok(()) };
+                    }
+                };
+                let heads = match st.get_heads() {
+                    Ok(h) => h,
+                    Err(e) => {
+                        return if completed { Err(("C15.image-unrecoverable".into(), sig_of("crash-image-unrecoverable"), format!("the head set is unreadable ({e}) although a commit had completed"))) } else { Ok(()) };
+                    }
+                };
+                let ids: Vec<CmdId> = heads.iter().map(|h| h.id).collect();
+                let Some(k) = candidates.iter().position(|c| self.g.frontier(c) == ids) else {
+                    return Err(("C15.image-unknown-state".into(), sig_of("crash-image-is-no-commit"), format!("heads {:?} are neither the last completed commit nor a commit in progress ({} candidates)", ids.iter().map(short).collect::<Vec<_>>(), candidates.len())));
+                };
+                // Facts of that commit are readable and equal the model.
+                if let Ok(want) = self.g.state_of_heads(&ids) {
+                    let got = st.fact_cache().ok().and_then(|idx| crate::policy::dump_query(&idx, &probe).ok());
+                    match got {
+                        Some((d, true)) if d == crate::model::state_dump(&want) => {}
+                        Some((d, _)) => return Err(("C15.image-wrong-facts".into(), sig_of("crash-image-wrong-facts"), format!("recovered commit {k} exposes facts {d:?}, model says {:?}", crate::model::state_dump(&want)))),
+                        None => return Err(("C15.image-unreadable-facts".into(), sig_of("crash-image-unreadable-facts"), format!("facts of recovered commit {k} are unreadable"))),
+                    }
+                }
+                // A sample of its commands is locatable and holds the right id.
+                let set: Vec<CmdId> = candidates[k].iter().copied().collect();
+                let stride = (set.len() / 6).max(1);
+                let mut buf = aranya_runtime::TraversalBuffer::new();
+                for id in set.iter().step_by(stride) {
+                    let addr = self.addr(id);
+                    match st.get_location(addr, &mut buf) {
+                        Ok(Some(loc)) => {
+                            use aranya_runtime::{Command as _, Segment as _};
+                            let ok = st.get_segment(loc).ok().and_then(|seg| seg.get_command(loc).map(|c| c.id() == *id)).unwrap_or(false);
+                            if !ok {
+                                return Err(("C15.image-unreadable-command".into(), sig_of("crash-image-unreadable-command"), format!("command {} of recovered commit {k} is not readable at its location", short(id))));
+                            }
+                        }
+                        other => return Err(("C15.image-unreadable-command".into(), sig_of("crash-image-unreadable-command"), format!("command {} of recovered commit {k} cannot be located: {other:?}", short(id)))),
+                    }
+                }
+                Ok(())
+            })();
+            fs.remove_all_files(scratch);
+            if let Err((class, sig, detail)) = verdict {
+                self.violation("C15", &class, &sig, format!("crash image taken at a sync point of replica {r}: {detail}"));
+            }
+        }
+    }
+
     /// After that call returned (successfully or not).
     pub fn fs_done(&mut self, r: usize, success: bool) {
         if self.is_file(r) {
+            let explored = crate::replica::guarded(|| self.check_crash_images(r));
+            if let crate::replica::Guarded::Panicked(m) = explored {
+                self.violation("C15", "C15.image-panic", "crash-image-panic", format!("reopening a crash image of replica {r} panicked: {m}"));
+            }
             if let Some(fs) = &self.fs {
                 fs.set_commit_window(r, false);
             }
@@ -675,12 +876,15 @@ impl Sim {
         }
     }
 
-    pub fn step_crash(&mut self, r: usize, at: u32, choices: u64) {
+    pub fn step_crash(&mut self, r: usize, at: u32, choices: u64, after_falloc: bool) {
         if r >= self.reps.len() || !self.is_file(r) || self.crashed[r] || self.dead {
             return;
         }
         if let Some(fs) = &self.fs {
-            if at == 0 {
+            if after_falloc {
+                fs.arm_crash_after_fallocate(r, at, choices);
+                self.note(&format!("crash armed r{r} {at} calls after the next fallocate"));
+            } else if at == 0 {
                 // Crash right now, between two calls.
                 self.crash_process(r, choices);
             } else {
